@@ -16,6 +16,9 @@ import engine_ogp as E
 from conc import Eval, V, Diverge, Unbound
 
 
+WIDE = ('usize', 'u64', 'u32', 'u128', 'i64', 'i128')     # value-preserving cast targets for a u32 quantity
+
+
 def run(rep):
     ogp = E.load()
     rep.explanation = __doc__
@@ -119,9 +122,9 @@ def run(rep):
             num = vals[1]
             layouters = []
             E.walk(num, lambda x: layouters.append(x) if x[0] == 'idx' else None)
-            ok1 = num[0] == 'call' and num[1] == 'Literal::usize_unsuffixed' and num[2][0][0] == 'cast' and num[2][0][1][0] == 'f' and num[2][0][1][2] == 'size' and \
+            ok1 = num[0] == 'call' and num[1] == 'Literal::usize_unsuffixed' and num[2][0][0] == 'cast' and num[2][0][2] in WIDE and num[2][0][1][0] == 'f' and num[2][0][1][2] == 'size' and \
                 num[2][0][1][1][0] == 'idx' and num[2][0][1][1][2] == handle and 'Layouter' in E.show(num[2][0][1][1][1], maxdepth=4)
-            ok2 = num[0] == 'call' and num[1] == 'Literal::usize_unsuffixed' and num[2][0][0] == 'cast' and \
+            ok2 = num[0] == 'call' and num[1] == 'Literal::usize_unsuffixed' and num[2][0][0] == 'cast' and num[2][0][2] in WIDE and \
                 num[2][0][1] == ('mcall', ('f', ty, 'inner'), 'size', [('mcall', modP, 'to_ctx', [])])
             rep.check(ok1 or ok2, 'C05.size-assert', 'size-number', where,
                       f'the expected size is {E.show(num, maxdepth=8)}; accepted: Layouter[this type handle].size or this type\'s TypeInner::size(module.to_ctx()), unmodified',
